@@ -12,6 +12,16 @@ Theorem relpath_resolves : forall from to,
   normalize_parts (removelast from ++ relpath to from) = to.
 Proof. exact relpath_normalize. Qed.
 Print Assumptions relpath_resolves.
+(* hypotheses satisfiable together, with a climb: from "a/b/m.capella" to "a/lib/x y.fragment" the link is
+   "../lib/x y.fragment" *)
+Definition ex_from : list part := [[97]; [98]; [109;46;99;97;112;101;108;108;97]]%N.
+Definition ex_to : list part := [[97]; [108;105;98]; [120;32;121;46;102;114;97;103;109;101;110;116]]%N.
+Definition ex_uuid : str := [98;45;49]%N.
+Definition ex_type : str := [116;58;88]%N.
+Example relpath_resolves_hyps_sat :
+  ex_from <> [] /\ is_prefix ex_from ex_to = false /\ has_dotdot ex_from = false /\ has_dotdot ex_to = false /\
+  relpath ex_to ex_from = [dotdot; [108;105;98]; [120;32;121;46;102;114;97;103;109;101;110;116]]%N.
+Proof. repeat split; try reflexivity; discriminate. Qed.
 
 (* 1'. the function translated from helpers.relpath_pure on this run is the model *)
 Theorem translated_relpath_is_model : forall path start,
@@ -24,6 +34,11 @@ Theorem quote_unquote : forall safe bs,
   Forall (fun b => (b < 256)%N) bs -> memN PCT safe = false -> unquote (quote safe bs) = bs.
 Proof. exact unquote_quote. Qed.
 Print Assumptions quote_unquote.
+(* hypotheses satisfiable: "a b%/" + UTF-8 e-acute, '/' safe; quoting changes the string *)
+Example quote_unquote_hyps_sat :
+  Forall (fun b => (b < 256)%N) [97;32;98;37;47;195;169]%N /\ memN PCT [SLASH] = false /\
+  quote [SLASH] [97;32;98;37;47;195;169]%N <> [97;32;98;37;47;195;169]%N.
+Proof. split; [repeat constructor|split; [reflexivity|vm_compute; discriminate]]. Qed.
 
 (* 3. link syntax: the three forms parse back to their components *)
 Theorem link_parse_format_typed : forall xt fr u, wf_tok xt = true -> wf_tok fr = true -> wf_uuid u = true ->
@@ -37,6 +52,10 @@ Print Assumptions link_parse_format_untyped.
 Theorem link_parse_format_local : forall u, wf_uuid u = true -> parse_link (HASH :: u) = Some (None, None, u).
 Proof. exact parse_format_local. Qed.
 Print Assumptions link_parse_format_local.
+(* hypotheses of the three parse theorems satisfiable together: type "t:X", fragment "f.c", id "b-1" *)
+Example link_parse_format_hyps_sat :
+  wf_tok ex_type = true /\ wf_tok [102;46;99]%N = true /\ wf_uuid ex_uuid = true.
+Proof. repeat split. Qed.
 
 (* 4. create_link: for every pair of fragment paths (all layouts: depth, '..' climbs, any bytes in
       names — spaces, '%', non-ASCII as UTF-8), the text produced parses as a link carrying the
@@ -49,6 +68,16 @@ Theorem create_link_resolves_cross : forall from to vis incl ty u,
   /\ exists xt fr, parse_link (create_link_text from to vis incl ty u) = Some (xt, Some fr, u).
 Proof. exact create_resolve_cross. Qed.
 Print Assumptions create_link_resolves_cross.
+(* all six hypotheses hold together; the text produced is "t:X ../lib/x%20y.fragment#b-1" *)
+Example wf_frags : wf_frag ex_from /\ wf_frag ex_to.
+Proof. split; (split; [repeat constructor|split; [reflexivity|discriminate]]). Qed.
+Example create_link_resolves_cross_hyps_sat :
+  wf_frag ex_from /\ wf_frag ex_to /\ wf_uuid ex_uuid = true /\
+  match Some ex_type with Some t => wf_tok t = true | None => True end /\
+  parts_eqb ex_from ex_to = false /\ is_prefix ex_from ex_to = false /\
+  create_link_text ex_from ex_to false None (Some ex_type) ex_uuid =
+    [116;58;88;32;46;46;47;108;105;98;47;120;37;50;48;121;46;102;114;97;103;109;101;110;116;35;98;45;49]%N.
+Proof. split; [apply wf_frags|split; [apply wf_frags|repeat split]]. Qed.
 
 Theorem create_link_same_fragment : forall from to vis incl ty u,
   wf_frag from -> wf_uuid u = true -> parts_eqb from to = true ->
@@ -56,8 +85,12 @@ Theorem create_link_same_fragment : forall from to vis incl ty u,
   resolve_fragment from (create_link_text from to vis incl ty u) = Some to.
 Proof. exact create_resolve_same. Qed.
 Print Assumptions create_link_same_fragment.
+Example create_link_same_fragment_hyps_sat :
+  wf_frag ex_from /\ wf_uuid ex_uuid = true /\ parts_eqb ex_from ex_from = true.
+Proof. split; [apply wf_frags|split; reflexivity]. Qed.
 
 (* the form Capella writes: typed iff requested (default: source not visual) and the target has a type *)
+(* by definition of create_link_text (its else-branch with the two nested conditionals merged into one match) *)
 Theorem create_link_form : forall from to vis incl ty u,
   parts_eqb from to = false ->
   create_link_text from to vis incl ty u =
@@ -67,6 +100,8 @@ Theorem create_link_form : forall from to vis incl ty u,
     end.
 Proof. exact create_form_cross_free. Qed.
 Print Assumptions create_link_form.
+Example create_link_form_hyps_sat : parts_eqb ex_from ex_to = false.
+Proof. reflexivity. Qed.
 
 (* 5. split_links translated from the source equals the recursive token model *)
 Theorem translated_split_links_is_model : forall s, split_links s = split_links_model s.
